@@ -51,7 +51,15 @@ def handle_models():
         k(p, Sym(f'finish_result{p.seq("fin")}', 'Result<(), ClosedStream>'))
 
     def m_poll_fn(ex, p, call, k):
-        p.events.append(Event('select', 'poll_fn', (call.args[0],)))
+        # tokio::select! = poll_fn(closure capturing (&mut disabled_mask, &mut futures)); the mask is pre-set by `, if cond` guards
+        clo = call.args[0]
+        mask = None
+        try:
+            d0 = ex.project(clo, ('field', 0, ''))
+            mask = ex.deref(p, d0) if isinstance(d0, Ptr) else d0
+        except Exception:
+            mask = None
+        p.events.append(Event('select', 'poll_fn', (call.args[0], mask)))
         k(p, Sym('select_future', 'PollFn').with_ov('closure', call.args[0]))
     return [(r'(^|::)read_request$', m_read_request), (r'(^|::)write_response$', m_write_response), (r'Extensions::insert$', m_ext_insert),
             (r'ServiceExt>::oneshot$', m_oneshot), (r'ServiceExt>::ready$', m_ready), (r'BoxCloneService as Service>::call$|as Service>::call$', m_svc_call),
@@ -129,6 +137,14 @@ def ob_do_handle(report, prop):
                 if not derives_from(clo, lambda v: isinstance(v, Sym) and v.name == 'handler_future', ex=ex, p=r.path) or \
                         not derives_from(clo, lambda v: isinstance(v, Sym) and v.name.startswith('stopped_future'), ex=ex, p=r.path):
                     return viol(prop, ob, [ex], 'the service future is not raced against stopped() of the response stream', 'handle-race-missing', path_summary(r), len(res))
+            if sel:
+                mask = evs[sel[0]].args[1] if len(evs[sel[0]].args) > 1 else None
+                if isinstance(mask, z3.ExprRef):
+                    qm, mm, _ = e2.solve(r.pc + [mask != z3.BitVecVal(0, mask.size())])
+                    ex.queries += 1
+                    if qm != 'unsat':
+                        return viol(prop, ob, [ex], 'a branch of the race between the handler and stopped() is disabled under some condition (a `, if ..` guard on the select arm): '
+                                    'for such requests an abandoned RPC is not cancelled (or its response is never awaited)', 'handle-race-guarded', path_summary(r), len(res))
             # cancelled branch: Out::_1 => Err, nothing written
             pcs = ' '.join(str(z3.simplify(c)) for c in r.pc)
             if 'poll(select_future)#1.discr == 1' in pcs:
@@ -297,3 +313,38 @@ def ob_do_rpc(report, prop):
         ob.done([ex], 'held', '', {'paths': len(res), 'success_paths': n_ok}, paths=len(res))
     return guarded(report, 'one_stream_per_rpc', 'Peer::do_rpc: one fresh bi stream on the peer\'s connection; the caller\'s request is written to its send half, the half is finished, the response is read from '
                    'its receive half and returned, tagged with the connection\'s authenticated peer id', ['Peer::do_rpc'], {'inline_depth': 3}, body)
+
+
+def ob_rpc_not_detached(report, prop):
+    """Peer::call / do_rpc (and the futures they return) never hand the RPC to a spawned task: dropping the caller's future drops
+    the streams (which resets / stops them), so the remote side learns of the abandonment"""
+    def body(ob):
+        ex = e2.executor('anemo', [], max_depth=2)
+        ms = dict(e2.methods_of(ex.prog, 'Peer'))
+        ms.update({'<Service>::' + k_: v_ for k_, v_ in e2.methods_of(ex.prog, 'Peer', trait='Service').items()})
+        SP = re.compile(r'(^|::)(spawn|spawn_local|spawn_blocking|spawn_on)$|JoinSet::spawn\w*$|Handle::spawn\w*$')
+        total = 0
+        checked = []
+        for name, f in sorted(ms.items()):
+            bodies = [f] + [g for raw, fs in ex.prog.fns.items() if raw.startswith(f.raw + '::{closure#') for g in fs]
+            for g in bodies:
+                try:
+                    if g.args and g.decl.get(g.args[0], '').startswith('Pin<&mut {'):
+                        p, args = coroutine_start(ex, g)
+                        res = ex.run(g, args, p)
+                    else:
+                        res = ex.run(g, [])
+                except (Unmodelled, NotFound):
+                    continue
+                total += len(res)
+                checked.append(g.name)
+                for r in res:
+                    sp = [e for e in r.events if e.kind == 'call' and SP.search(str(e.name))]
+                    if sp:
+                        return viol(prop, ob, [ex], f'{g.name} hands work to a spawned task ({sp[0].name}): the RPC is detached from the future the caller holds, so abandoning '
+                                    'that future no longer resets/stops the streams and the remote handler is never cancelled', 'rpc-detached', path_summary(r), total)
+        if not any('call' in c for c in checked):
+            return ob.done([ex], 'inconclusive', f'Peer::call not analysed: {checked[:6]}', paths=total)
+        ob.done([ex], 'held', '', {'bodies': checked[:20], 'paths': total}, paths=total)
+    return guarded(report, 'rpc_lives_in_callers_future', 'no method of Peer (nor any future it returns) spawns a task: an RPC is driven only by the future its caller holds, so dropping that '
+                   'future drops both stream halves (RESET / STOP_SENDING reach the remote)', ['Peer::*'], {'inline_depth': 2}, body)
